@@ -203,7 +203,16 @@ pub const SETTER_OPTION: [&str; 11] = [
     "chewing.auto_shift_cursor", "chewing.easy_symbol_input", "chewing.phrase_choice_rearward", "chewing.disable_auto_learn_phrase",
 ];
 pub const INT_OPTS: [&str; 2] = ["chewing.conversion_engine", "chewing.enable_fullwidth_toggle_key"];
-pub const SEL_KEY_SETS: [&[u8; 10]; 3] = [b"1234567890", b"asdfghjkl;", b"qweruiop[]"];
+/// the fourth set holds values that are no bytes (chewing_set_selKey takes ten C ints unchecked): 256 + 'a', a negative
+/// value, a code point beyond ASCII - under an open list each still stands for the digit key of its position
+pub const SEL_KEY_SETS: [[i32; 10]; 4] = [
+    [49, 50, 51, 52, 53, 54, 55, 56, 57, 48],
+    [97, 115, 100, 102, 103, 104, 106, 107, 108, 59],
+    [113, 119, 101, 114, 117, 105, 111, 112, 91, 93],
+    [353, 115, -159, 102, 0x1F600, 104, 106, 107, 108, 59],
+];
+/// the keys a generated history sends through chewing_handle_Default while a list is open
+pub const CHOICE_KEYS: [i32; 24] = [49, 50, 51, 52, 53, 54, 55, 56, 57, 48, 97, 115, 100, 102, 103, 104, 106, 107, 108, 59, 113, 353, -159, 0x1F600];
 
 pub const PHRASES: [(&str, &str); 5] =
     [("測試", "ㄘㄜˋ ㄕˋ"), ("策士", "ㄘㄜˋ ㄕˋ"), ("冊", "ㄘㄜˋ"), ("試試測", "ㄕˋ ㄕˋ ㄘㄜˋ"), ("是", "ㄕˋ")];
@@ -253,7 +262,10 @@ impl Op {
             Op::Set(w, v) => format!("set_{}({})", SETTERS[*w as usize], v),
             Op::SetOpt(w, v) => format!("config_set_int({},{})", INT_OPTS[*w as usize], v),
             Op::SetKb(k) => format!("set_KBType({})", k),
-            Op::SetSelKeys(i) => format!("set_selKey(\"{}\")", String::from_utf8_lossy(SEL_KEY_SETS[*i as usize])),
+            Op::SetSelKeys(i) if *i < 3 => {
+                format!("set_selKey(\"{}\")", SEL_KEY_SETS[*i as usize].iter().map(|k| *k as u8 as char).collect::<String>())
+            }
+            Op::SetSelKeys(i) => format!("set_selKey({:?})", SEL_KEY_SETS[*i as usize]),
             Op::UserAdd(i) => format!("userphrase_add({})", PHRASES[*i as usize].0),
             Op::UserRemove(i) => format!("userphrase_remove({})", PHRASES[*i as usize].0),
         }
@@ -696,7 +708,7 @@ impl Twin {
             }
             Op::SetSelKeys(i) => {
                 for (j, b) in SEL_KEY_SETS[*i as usize].iter().enumerate() {
-                    self.sel_keys[j] = *b as i32;
+                    self.sel_keys[j] = *b;
                 }
                 plain(0)
             }
